@@ -780,6 +780,10 @@ theorem qOk_lower {s : Str} (hs : QOk s) : QOk (lower s) :=
 theorem qOk_safelyQuote (s : Str) : QOk (safelyQuote s) :=
   ⟨Ural.Canonicalize.not_mem_safelyQuote ⟨by decide, by decide⟩ (by decide) s, noCtl_safelyQuote s⟩
 
+theorem qOk_quoteQueryItem (s : Str) : QOk (quoteQueryItem s) :=
+  ⟨Ural.Canonicalize.not_mem_quoteQueryItem ⟨by decide, by decide⟩ (by decide) s,
+    noCtl_safelyQuoteBy safeSet_quoteSafeQ s⟩
+
 theorem qOk_serialize {qsl : List (Str × Option Str)} (h : ∀ x ∈ qslStrs qsl, QOk x) :
     QOk (safeSerializeQsl qsl) := by
   constructor
@@ -904,7 +908,7 @@ theorem qOk_query (puny : Str → Str) (o : Normalize.Opts) (hp : Bool) (p : Par
     exact qOk_unquoteQueryItem (qOk_filterQuery o _ (qOk_fixedQuery o p hq) z hz)
   split at hx
   · obtain ⟨z, hz, rfl⟩ := qslStrs_quoteQsl _ x hx
-    exact qOk_safelyQuote z
+    exact qOk_quoteQueryItem z
   · exact h1 x hx
 
 /-- the fragment of the result: no control character -/
